@@ -20,6 +20,7 @@
 #include <iostream>
 #include <sstream>
 #include <string>
+#include <type_traits>
 #include <vector>
 
 #include <sys/mman.h>
@@ -136,7 +137,11 @@ static void run_bar(const Case& c) {
     s.begin(c.seed, c.strategy, c.spurious, 50000);
     if (c.have_choices) s.set_replay(c.choices);
     s.on_deadlock = [&]() {
-        printf("STATE bar step=%zu", static_cast<size_t>(bar.step()));
+        // ThreadBarrierSpin::step() is an atomic load = a shim scheduling point: not callable from inside the hook
+        if constexpr (std::is_same<Barrier, tlx::ThreadBarrierMutex>::value)
+            printf("STATE bar step=%zu", static_cast<size_t>(bar.step()));
+        else
+            printf("STATE bar step=-1");
         for (size_t t = 1; t <= n; ++t) printf(" t%zu:%d:%d", t, g_pos[t], g_inside[t]);
         printf("\n");
     };
@@ -147,7 +152,7 @@ static void run_bar(const Case& c) {
                 for (int g = 0; g < c.gens[t]; ++g) {
                     g_pos[t + 1] = g; g_inside[t + 1] = 1;
                     s.note("in", g, 0);
-                    auto action = [&s, g]() { s.note("act", g, 0); };
+                    auto action = [&s, g]() { s.user("act", g, 0); };   // with a scheduling point: "before anyone is released" is observable
                     if (c.yield) bar.wait_yield(action); else bar.wait(action);
                     g_inside[t + 1] = 0; g_pos[t + 1] = g + 1;
                     s.note("out", g, 0);
